@@ -31,7 +31,12 @@ func (op *FsTxn) commitWait(wait bool) bool {
 	op.preCommit()
 	ok := op.Atxn.Op.CommitWait(wait)
 	if !ok {
+		// nothing reached the disk: roll back as Abort does (in particular
+		// give the allocated numbers back instead of releasing the freed ones)
 		op.invalidateInodes()
+		op.releaseInodes()
+		op.Atxn.PostAbort()
+		return false
 	}
 	op.postCommit()
 	return ok
